@@ -217,6 +217,12 @@ def run_check(check: Check, argv=None):
         cov.setdefault("states", 0)
         cov.setdefault("transitions", 0)
         cov["traces_validated_against_impl"] = sum(int(r.get("traces", 0)) for r in results)
+    slow = sorted(((r.get("_t", 0), i) for i, r in enumerate(results)), reverse=True)[:3]
+    cov["slowest_cases_s"] = [round(t, 2) for t, _ in slow]
+    cov["cpu_s"] = round(sum(r.get("_t", 0) for r in results), 1)
+    if os.environ.get("FV_SLOW"):
+        for t, i in slow:
+            print("SLOW", t, json.dumps(run_list[i], default=str)[:300])
     cov.update(check.extra_coverage(list(zip(run_list, results))))
     ev = {"property_id": pid, "tier": args.tier, "seed": seed, "level": check.level,
           "coverage": cov, "assumptions": check.assumptions, "wall_s": round(wall, 2),
